@@ -157,11 +157,11 @@ BOUNDED_STANDINS = {
                  why='list-mutating recursive descent over regex-lexed tokens is outside the VC generator\'s subset')],
     **{pid_: [dict(name='contract-crosscheck-cpython', script='pyvc/native/contract_fuzz.py', quick=['150'], thorough=['4000'],
                    what='random inputs satisfying the precondition, REAL PackedBits.append_bits / MemoryZone.__init__ / '
-                        'MemoryZone.current_address setter under CPython, the contract\'s own clauses evaluated natively on the '
+                        'MemoryZone.current_address setter / PredefinedDataLine.generate_bytes / EmbeddedString.generate_bytes under CPython, the contract\'s own clauses evaluated natively on the '
                         'observed pre/post state',
                    why='guards pyvc\'s model of Python and the trusted axioms behind the proved obligations of these kernels; '
                        'decides nothing about the property',
-                   bound='random cases per kernel')] for pid_ in ('C01', 'C05', 'C12')},
+                   bound='random cases per kernel')] for pid_ in ('C01', 'C05', 'C11', 'C12')},
     'C16': [dict(name='listing-byte-rows', script='pyvc/native/bounded_c16.py', quick=['64'], thorough=['400'],
                  what='ListingPrettyPrinter._generate_bytecode_line_string: every length up to the bound x row widths 1..8, '
                       'real helper, rows decoded back to the bytes',
